@@ -58,6 +58,16 @@ func (c *c01HTTP) call(status, mode int) (ran bool, code int) {
 	return c.ran > before, rec.Code
 }
 
+// c01StatusClass names the input class of a status for violation signatures:
+// boundary statuses by value, the rest by hundred.
+func c01StatusClass(s int) string {
+	switch s {
+	case 100, 199, 200, 399, 400, 498, 499, 500, 501, 503, 599:
+		return fmt.Sprint(s)
+	}
+	return fmt.Sprintf("%dxx", s/100)
+}
+
 func TestVerifC01HTTPBenignTable(t *testing.T) {
 	m := vk.New(t, "C01", "BreakerHandler + httptest recorder, virtual clock frozen: every status 100-499 (and implicit 200) alone x150 requests on a fresh breaker => 0 dropped; 10000 mixed benign statuses on one breaker => 0 dropped; every status 500-599 alone x400 requests => at least one request dropped, every drop answers 503 without running the handler; non-trivial = row whose breaker dropped something")
 	defer m.Done()
@@ -79,7 +89,7 @@ func TestVerifC01HTTPBenignTable(t *testing.T) {
 			ran, code := c.call(s, i%2)
 			m.Count("requests_benign", 1)
 			if !ran {
-				m.Violate(fmt.Sprintf("C01:benign:http:%d:dropped", s), desc, "request #%d answering %d was dropped (recorded %d) after only status-%d responses", i, s, code, s)
+				m.Violate("C01:benign:http:"+c01StatusClass(s)+":dropped", desc, "request #%d answering %d was dropped (recorded %d) after only status-%d responses", i, s, code, s)
 				okRow = false
 				break
 			}
@@ -142,7 +152,7 @@ func TestVerifC01HTTPBenignTable(t *testing.T) {
 		}
 		m.Count("requests_dropped", int64(drops))
 		if !bad && drops == 0 {
-			m.Violate(fmt.Sprintf("C01:nonbenign:http:%d:never-cut-off", s), desc, "%d consecutive responses with status %d and not a single request was dropped: the status does not count as a failure", perBad, s)
+			m.Violate("C01:nonbenign:http:"+c01StatusClass(s)+":never-cut-off", desc, "%d consecutive responses with status %d and not a single request was dropped: the status does not count as a failure", perBad, s)
 		}
 		m.Case(fmt.Sprint("failing", s, drops > 0), drops > 0)
 		if s%25 == 0 {
